@@ -101,6 +101,12 @@ class MemFile:
     def __exit__(self, *exc):
         return False
 
+    def close(self):
+        return None
+
+    def write(self, data):
+        self._store("corrupt" if data else "empty", None)
+
     def _store(self, kind, content):
         fs = self.path.fs
         partial = fs.op(f"write {self.path.p}", is_write=True)
